@@ -41,7 +41,7 @@ def dispatchBaseM (op : String) (j : Json) : M Json := do
   match op with
   | "bin_edges" => do
       let c ← fRats j "c"
-      pure (outcome jRats (binEdges c))
+      pure (outcome jRats (calcBinEdges c))
   | "bin_widths" => do
       let e ← fRats j "e"
       pure (outcome jRats (binWidths e))
